@@ -492,20 +492,50 @@ theorem empty_ceases_spop (s : MState) (now : Int) (key : Bytes) (count : Int) (
     getMeta (Api.spop s now key count choice).1 key = none :=
   ((spop_sound s now key count choice st h hi hst).1 (spop_reply_admissible s now key count choice st h hi hst hr)).2.1 hall
 
-/-- SMOVE of the only member to another key: the source ceases to exist (whatever the destination
-    holds — even when the call then panics on a wrong-typed destination) -/
+/-- SMOVE of the only member to another key that is missing or holds a set: the source ceases to exist.
+    (SMOVE now checks the destination's type before the member leaves the source. Before that repair
+    the conclusion held whatever the destination held — the source was emptied and unlinked, and the
+    member then lost, when the call failed on a wrong-typed destination. That case is now
+    `smove_wrong_type_destination`: the call fails first and nothing changes.) -/
 theorem empty_ceases_smove (s : MState) (now : Int) (src dst member : Bytes) (st : AList Unit)
-    (h : HotSet s src st now) (hi : IndexSorted s) (hne : src ≠ dst) (hst : AList.Sorted st)
+    (h : HotSet s src st now) (hi : IndexSorted s) (hne : src ≠ dst)
+    (hd : Absent s dst now ∨ ∃ d, HotSet s dst d now) (hst : AList.Sorted st)
     (hmem : DsSet.mem st member = true) (hlast : ∀ x, DsSet.mem st x = true → x = member) :
     getMeta (Api.smove s now src dst member).1 src = none :=
-  C03Api.smove_src_gone s now src dst member st h hi hne hst hmem hlast
+  C03Seq.smove_src_gone s now src dst member st h hi hne hd hst hmem hlast
+
+/-- non-vacuity of the destination hypotheses: "m" is missing, "s" holds a set, "h" holds a hash -/
+example : Absent exampleStore [109] 5 ∨ ∃ d, HotSet exampleStore [109] d 5 := Or.inl example_m_absent
+example : Absent exampleStore [115] 5 ∨ ∃ d, HotSet exampleStore [115] d 5 :=
+  Or.inr ⟨_, { exp := 100, value := some (.set [([1], ()), ([2], ())]), state := 1 }, by rfl, by decide, by decide, rfl⟩
+example : ∃ v, Hot exampleStore [104] v 5 ∧ ∀ d, v ≠ .set d :=
+  ⟨.hash [([], [])], ⟨{ exp := 0, value := some (.hash [([], [])]), state := 1 }, by rfl, by decide, by decide, rfl⟩,
+   fun _ e => by cases e⟩
+
+/-! ### SMOVE: the destination's type is checked before anything moves -/
+
+/-- the source holds a set and the destination exists with another type: the call fails (wrong type),
+    whether or not `member` is in the source, and nothing is moved or lost — every key (the source and
+    the destination included) is classified exactly as before, and the index stays well formed -/
+theorem smove_wrong_type_destination (s : MState) (now : Int) (src dst member : Bytes) (st : AList Unit)
+    (h : HotSet s src st now) (hd : ∃ v, Hot s dst v now ∧ ∀ d, v ≠ .set d) :
+    (Api.smove s now src dst member).2 = .panic ∧
+    (∀ k, Absent s k now → Absent (Api.smove s now src dst member).1 k now) ∧
+    (∀ k v, Hot s k v now → Hot (Api.smove s now src dst member).1 k v now) ∧
+    (IndexSorted s → IndexSorted (Api.smove s now src dst member).1) :=
+  let ⟨a, b, c⟩ := C03Seq.smove_wrong_dst s now src dst member st h hd
+  ⟨a, b.1, b.2, c⟩
 
 /-! ### SMOVE: the cases that involve one key only -/
 
-/-- the member is not in the source: reply false, the source keeps its set (whatever the destination) -/
+/-- the member is not in the source: the source keeps its set whatever the destination is (no hypothesis
+    on it); the reply is false when the destination is missing or a set, and the call fails (wrong type,
+    as in Redis) when the destination holds another type -/
 theorem smove_not_member (s : MState) (now : Int) (src dst member : Bytes) (st : AList Unit)
     (h : HotSet s src st now) (hm : DsSet.mem st member = false) :
-    (Api.smove s now src dst member).2 = .bool false ∧ HotSet (Api.smove s now src dst member).1 src st now :=
+    HotSet (Api.smove s now src dst member).1 src st now ∧
+    ((Absent s dst now ∨ ∃ d, HotSet s dst d now) → (Api.smove s now src dst member).2 = .bool false) ∧
+    ((∃ v, Hot s dst v now ∧ ∀ d, v ≠ .set d) → (Api.smove s now src dst member).2 = .panic) :=
   C03Seq.smove_not_member s now src dst member st h hm
 
 /-- a missing source is the empty set: reply false -/
@@ -730,7 +760,8 @@ end F
 
 /- UNPROVED (not attempted / out of reach in this round):
    * SMOVE between two *different* keys with the member present, beyond `empty_ceases_smove` (proved:
-     non-member / missing source / source = destination / source ceases to exist). The remaining
+     non-member / missing source / source = destination / source ceases to exist / destination of
+     another type: the call fails and nothing changes). The remaining
      statement (destination gains the member, source keeps the rest) is not proved: `Api.setVal`
      propagates a new value to every index record sharing the value object's identity (`oid`), so it
      needs a store-level invariant "distinct live keys have distinct oids, all below nextId", which is a
